@@ -59,6 +59,23 @@ def rule_cmp_delegate(ctx):
         r.instance("Eq for %s is a marker impl" % adt, ok)
         if not ok:
             r.violate(adt, "Eq", "Eq is not a plain marker impl")
+        # the impls claim for the pointer exactly what the payload has: `Rc<T>: Tr` only where `T: Tr` (or a trait that
+        # has Tr as a supertrait).  A relaxed bound changes no method body, but lets the pointer claim a law - Eq's
+        # reflexivity, Ord's totality - for a payload whose own comparison does not have it (`x == x` false for an `Eq` key)
+        IMPLIES = {"std::cmp::PartialEq": ("std::cmp::PartialEq", "std::cmp::Eq", "std::cmp::PartialOrd", "std::cmp::Ord"),
+                   "std::cmp::Eq": ("std::cmp::Eq", "std::cmp::Ord"),
+                   "std::cmp::PartialOrd": ("std::cmp::PartialOrd", "std::cmp::Ord"),
+                   "std::cmp::Ord": ("std::cmp::Ord",),
+                   "std::hash::Hash": ("std::hash::Hash",)}
+        for trait, enough in IMPLIES.items():
+            for im in [i for i in prog.items["impls"] if i.get("self_adt") == adt and i.get("trait") == trait]:
+                ok = any(("TraitPredicate(<T as %s>, polarity:Positive)" % t) in w for t in enough for w in im.get("where", []))
+                r.instance("%s for %s requires T: %s" % (trait.split("::")[-1], adt, trait.split("::")[-1]), ok)
+                if not ok:
+                    r.violate("<%s as %s>" % (selfty, trait), "bound", "the impl does not require `T: %s`: the pointer claims "
+                              "%s for payloads whose own comparison does not have its laws (e.g. a float field: `x == x` is "
+                              "false for a type that is `Eq`, a HashSet keyed on it loses keys)"
+                              % (trait.split("::")[-1], trait.split("::")[-1]), "%s:%s" % (im["span"]["file"], im["span"]["line"]))
         # no second impl of the comparison traits
         for trait in METHODS:
             n = [i for i in prog.items["impls"] if i.get("self_adt") == adt and i.get("trait") == trait]
